@@ -444,6 +444,64 @@ theorem sim_finish (wf : DWf c mgmt) (hi : IdxInv c s) (hs : Sim c s m) {i : Nat
       inflight_len := Nat.le_trans (List.length_filter_le _ _) hs.inflight_len
       inflight_phase := fun hne => absurd hp hne }
 
+theorem sim_closeSession (wf : DWf c mgmt) (hi : IdxInv c s) (hs : Sim c s m) {i k : Nat}
+    (h : dstep c s (.closeSession i k) = some s') :
+    ∃ evs m', s'.log = s.log ++ evs ∧ monRun cfg m evs = .ok m' ∧ Sim c s' m' := by
+  obtain ⟨ss, hp, hss, hk, rfl⟩ := dstep_closeSession_inv h
+  have hiss := sessionsOf_mem hss
+  obtain ⟨hssnd, hmem⟩ := hs.sess_of_inflight i ss hiss
+  obtain ⟨f, hf, hkf⟩ := hmem k hk
+  have hl := lookupSess_of_mem hs.sess_nodup hkf
+  refine ⟨[.eof k], _, rfl, monRun_single (monStep_eof_ok hl), ?_⟩
+  have hsub : ∀ p, p ∈ m.sessions.filter (fun p => p.1 ≠ k) → p ∈ m.sessions ∧ p.1 ≠ k := by
+    intro p hpm
+    obtain ⟨h1, h2⟩ := List.mem_filter.mp hpm
+    exact ⟨h1, by simpa using h2⟩
+  exact
+    { created := hs.created
+      toCreate_nil := hs.toCreate_nil
+      dropped_early := hs.dropped_early
+      dropped_late := hs.dropped_late
+      toDrop_fin := hs.toDrop_fin
+      cancelled := hs.cancelled
+      sess_nodup := (List.Sublist.map _ List.filter_sublist).nodup hs.sess_nodup
+      sess_lt := fun p hpm => hs.sess_lt p (hsub p hpm).1
+      sess_of_inflight := by
+        intro j ss' hj
+        rcases mem_setSessions.mp hj with ⟨hji, hj'⟩ | ⟨hj', _⟩
+        · obtain ⟨h1, h2⟩ := hs.sess_of_inflight j ss' hj'
+          refine ⟨h1, fun k' hk' => ?_⟩
+          obtain ⟨f', hf', hkm⟩ := h2 k' hk'
+          refine ⟨f', hf', List.mem_filter.mpr ⟨hkm, ?_⟩⟩
+          have : k' ≠ k := by
+            intro hkk
+            subst hkk
+            have hdb : f'.db = f.db := fst_nodup_unique hs.sess_nodup hkm hkf
+            exact hji (fileAt_db_inj wf hf' hf hdb)
+          simpa using this
+        · cases hj'
+          refine ⟨hssnd.sublist List.filter_sublist, fun k' hk' => ?_⟩
+          obtain ⟨hk1, hk2⟩ := List.mem_filter.mp hk'
+          obtain ⟨f', hf', hkm⟩ := hmem k' hk1
+          exact ⟨f', hf', List.mem_filter.mpr ⟨hkm, by simpa using hk2⟩⟩
+      inflight_of_sess := by
+        intro p hpm
+        obtain ⟨hpm', hpn⟩ := hsub p hpm
+        obtain ⟨j, ss', f', h1, h2, h3, h4⟩ := hs.inflight_of_sess p hpm'
+        by_cases hji : j = i
+        · subst hji
+          have : ss' = ss := fst_nodup_unique hi.inflight_nodup h1 hiss
+          subst this
+          exact ⟨j, ss'.filter (fun x => x ≠ k), f',
+            mem_setSessions.mpr (Or.inr ⟨rfl, ss', h1⟩),
+            List.mem_filter.mpr ⟨h2, by simpa using hpn⟩, h3, h4⟩
+        · exact ⟨j, ss', f', mem_setSessions.mpr (Or.inl ⟨hji, h1⟩), h2, h3, h4⟩
+      inflight_len := by
+        show (setSessions s.inflight i (ss.filter (fun x => x ≠ k))).length ≤ c.jobs
+        rw [setSessions_length]
+        exact hs.inflight_len
+      inflight_phase := fun hne => absurd hp hne }
+
 /-- **the step lemma**: whatever the driver does, the monitor accepts the events it emits, and the
     relation is preserved -/
 theorem dstep_sim (wf : DWf c mgmt) (cm : CfgMatch c mgmt cfg) (hi : IdxInv c s) (hs : Sim c s m)
@@ -456,6 +514,7 @@ theorem dstep_sim (wf : DWf c mgmt) (cm : CfgMatch c mgmt cfg) (hi : IdxInv c s)
   | openSession i => exact sim_openSession wf cm hi hs h
   | sql i k t => exact sim_sql wf cm hs h
   | finish i r b => exact sim_finish wf hi hs h
+  | closeSession i k => exact sim_closeSession wf hi hs h
   | signal => exact sim_signal hs h
   | beginDrop => exact sim_beginDrop hs h
   | drop => exact sim_drop wf hs h
